@@ -16,6 +16,7 @@ DECIDED = ("R1 the White/Black policy pair is a mirror pair: COLOR swapped, (WOR
            "(same thresholds on both sides), no colour-specific table is read unless `positional`; R5 score mirror: cmp(mirror a, mirror b) = cmp(b, a) on the extracted order.")
 DECIDED = DECIDED + ' R6 premise re-run here: the king-distance helper read by the endgame evaluation is the mirror-invariant Chebyshev distance (C09.R3). R7 root search window: inside the deepening loop alpha and beta are reset together (White only tightens alpha, Black only beta: one stale bound makes the colours search differently).'
 DECIDED = DECIDED + ' R2 also: a method of the Policy trait implemented once per colour whose two implementations are mirror images counts as a colour switch.'
+DECIDED = DECIDED + ' R90 premises re-run here: C10 C10.R9; C12 C12.R3; C02 C02.R3.'
 NOT_DECIDED = "equality of the reported scores on actual positions (needs the search and move generator as behaviours); positional evaluation (off in the shipped configuration) is exempt"
 EXPLANATION = "K4 tables for the policy functions and eval; K2 scan of every SwitchInt on a Color discriminant with an arm-summary mirror comparison; K1 for the data."
 
@@ -523,6 +524,16 @@ def r7(ctx):
     in_a, in_b = bool(resets["alpha"] & set(outer)), bool(resets["beta"] & set(outer))
     ctx.ob("alpha/beta reset together", in_a == in_b and bool(outer), f"inside the deepening loop alpha is reset: {in_a}, beta is reset: {in_b}; they must be reset together (Score::Min / Score::Max) or not at all",
            site=body.get("def_span"), sample={"alpha_reset_in_loop": in_a, "beta_reset_in_loop": in_b})
+
+
+@rule("C13.R90", 'premises shared with other properties: C10 (C10.R9); C12 (C12.R3); C02 (C02.R3)')
+def r_premises_shared(ctx):
+    """This property's argument rests on these rules of other properties (what it calls is assumed to behave); they are re-run here so that a
+    breakage of one of them is reported by this property's own check as well."""
+    from analysis.runner import premise
+    premise(ctx, 'C10', ['C10.R9'] and set(['C10.R9']), 'both colours iterate their moves through MoveGen::next; it no longer yields every masked move')
+    premise(ctx, 'C12', ['C12.R3'] and set(['C12.R3']), 'the dead-position shortcut must treat the two colours alike')
+    premise(ctx, 'C02', ['C02.R3'] and set(['C02.R3']), 'the draw clock must tick alike for both colours')
 
 
 # ------------------------------------------------------------------ controls
